@@ -598,7 +598,10 @@ func execOp(c *Ctx, line string) (out string) {
 		return fmt.Sprintf("%d %d %s", id.Version(), id.Variant(), hx([]byte(id.URN())))
 	case "uu.random":
 		src := &fixedSource{vals: []int64{int64(atou(f[1])), int64(atou(f[2]))}}
-		restore := uu.VerifSetRandomSource(src)
+		if !hookBuild {
+			return "no-hook-in-this-build"
+		}
+		restore := setRandomSource(src)
 		id := uu.RandomID()
 		restore()
 		if src.i != 2 {
